@@ -196,7 +196,8 @@ class Scale(EnvironmentFilter):
 
     def _get_shift_and_scale(self,values) -> Tuple[float,float]:
         try:
-            values = [v for v in values if v is not None]
+            #missing values (None and nan, the only value not equal to itself) play no part in the statistics
+            values = [v for v in values if v is not None and v == v]
             shift = self._shift_value(values)
             scale = self._scale_value(values,shift)
 
